@@ -149,6 +149,8 @@ def prefix_strings(org, node, arg):
         return [x.value for x in arg.elts]
     if isinstance(arg, ast.Name):
         o = org.of(node.id, arg)
+        if o[0] == "const" and isinstance(o[1], str):
+            return [o[1]]           # a loop over a literal table, unrolled in the flow graph: this copy tests one constant
         if o[0] == "item" and o[1][0] == "elem" and o[1][1][0] == "tuple":
             rows = o[1][1][1]
             if all(r[0] == "tuple" and len(r[1]) > o[2] and r[1][o[2]][0] == "const" and isinstance(r[1][o[2]][1], str) for r in rows):
